@@ -3,7 +3,7 @@
 ; requires base.smt2
 ; usetype github.com/wokdav/gopki/generator/config.ProfileExtension
 (declare-fun extOid (Any) OidV)
-(declare-fun jsonBytes (Deep) Bytes)
+; requires hash.smt2
 (define-fun jsonOf ((x Any)) Bytes (jsonBytes (deepOf x)))
 (define-fun vgI ((v (View Int)) (i Int)) Int (select (varr v) (+ (voff v) i)))
 (define-fun vgA ((v (View Any)) (i Int)) Any (select (varr v) (+ (voff v) i)))
